@@ -695,7 +695,7 @@ def u_to_euler(U_matrix):
     if CHECKS.activated: checks._check_rotation_matrix(U)
 
     tol = 1e-8
-    PHI = n.arccos(U[2, 2])
+    PHI = n.arccos(n.clip(U[2, 2], -1, 1))
     if n.abs(PHI)<tol:
         phi1 = _arctan2(-U[0, 1], U[0, 0])
         phi2 = 0
